@@ -261,6 +261,12 @@ def body(tier, seed, replay):
     rng = random.Random(seed)
     tmp = C.scratch_dir('c06_')
     try:
+        if replay and 'builder_spec' in json.load(open(replay)):
+            from . import tb
+            sp = json.load(open(replay))['builder_spec']
+            sp['inputs'] = [tuple(w) for w in sp['inputs']]
+            tb.judge(PID, [c for c in [tb.observe_case(sp)] if not c['skip']], ev, rep, tmp, 'replay')
+            return rep.finish()
         if replay:
             case = json.load(open(replay))
             sp = dict(case['spec'])
@@ -288,6 +294,9 @@ def body(tier, seed, replay):
         r = next(r for r in c['runs'] if r['mode'] == 'tree' and r['nodes'])
         ev.sample({'grammar': c['tgtext'], 'text': json.loads(r['text']), 'cfg': r['cfg'], 'tokens': r['toks'][:4], 'nodes': r['nodes'][:2]})
         judge(cases, ev, rep, tmp, 'sweep')
+        # L1: the positions every reduction of the real LALR parser sets, against PropagatePositions of TreeBuilder.tla
+        from . import tb
+        tb.phase(PID, tier, rng, ev, rep, tmp, n_quick=1500, n_thorough=12000)
         if ev.cov['counts'].get('runs_with_tokens_after_a_newline', 0) < 2000 or ev.cov['counts'].get('tree_nodes', 0) < 2000:
             raise C.MachineryFailure('vacuity: %s' % ev.cov['counts'])
         ev.assumptions += ['newline offsets of the text and the extents of tokens are taken from the text itself; Python re decides single-terminal matches']
